@@ -15,7 +15,7 @@ RULE = ("random programs p (full model); for each: reflexivity, equality with th
 ASSUMPTIONS = ["model-level 'meaning or declarations differ' = declarations with slice defaults made explicit, body meaning "
                "unexpanded, macro meanings with parameters named by position (unused parameter renames are equivalent mutants)"]
 TIERS = {"quick": {"shards": 8, "budget_s": 60}, "thorough": {"shards": 16, "budget_s": 420}}
-REQUIRE = {"mutant-pairs-judged": 8000, "meaning-changing-mutants": 5000, "equivalent-mutants": 50, "layout-pairs": 300,
+REQUIRE = {"programs-with-near-twin-statements": 300, "mutant-pairs-judged": 8000, "meaning-changing-mutants": 5000, "equivalent-mutants": 50, "layout-pairs": 300,
            "roundtrip-pairs": 300, "independent-pairs": 300, "eq:Circuit:True": 100, "eq:Circuit:False": 1000,
            "eq:GateStatement:False": 100, "eq:BlockStatement:False": 100, "eq:LoopStatement:False": 20, "eq:Register:False": 20,
            "eq:Constant:False": 20, "eq:Macro:False": 20}
@@ -175,6 +175,9 @@ def mutants(prog, rng):
                 if isinstance(a, (int, float)) and not isinstance(a, bool):
                     yield "numeric-argument", put(prog, path, n[:j] + (a + 1,) + n[j + 1:])
                     if isinstance(a, int):
+                        yield "numeric-argument", put(prog, path, n[:j] + (a - 1,) + n[j + 1:])
+                        yield "numeric-argument-same-hash", put(prog, path, n[:j] + ((-2 if a == -1 else a + 2 ** 61 - 1),) + n[j + 1:])
+                    if isinstance(a, int):
                         yield "numeric-argument-int-to-float", put(prog, path, n[:j] + (float(a),) + n[j + 1:])
                     else:
                         import math
@@ -287,6 +290,14 @@ def shard(ctx):
                         block_len=(0, 3), p_hostile_names=0.0, macro_sub=rng.random() < 0.3, p_usepulses=0.3,
                         wild_numbers=rng.random() < 0.3, allow_reg_args=False)
         prog = g.program()
+        if rng.random() < 0.3:
+            # two statements that differ in ONE integer argument, the two integers being ones that shortcuts confuse:
+            # neighbours, and values with equal Python hash (hash(-1) == hash(-2), hash(v) == hash(v + 2**61 - 1))
+            a, b = rng.choice([(-1, -2), (-2, -1), (0, 2 ** 61 - 1), (1, 2 ** 61), (3, 3 + 2 ** 61 - 1), (2, 3), (7, -7)])
+            q = [s for s in prog[1:] if s[0] == "register"]
+            extra = (("array_item", q[0][1], 0),) if q else ()
+            prog = prog + (("gate", "tw") + extra + (a,), ("gate", "tw") + extra + (b,))
+            rec.count("programs-with-near-twin-statements")
         process_pair(ctx, prog, prog, "roundtrip")
         process_pair(ctx, prog, rng.randrange(1 << 30), "layout")
         if prev is not None:
